@@ -64,6 +64,52 @@ def run(ctx, obs):
     scale_rule.check_estimators(ctx, obs)
     # 7. AXIS roles in the estimator kernels: (conditions C) x (channels F) in, (C, C) into the triangle extraction
     kernel_axes(ctx, obs)
+    from ..rules.common import mean_first
+    for m, q in ESTIMATORS.items():
+        if mean_first(ctx, obs, q) == 0:
+            obs.unk('MEAN-FIRST', q, 'condition means are computed by _parse_input / average_dataset_by', 'no averaging call found')
+    # 8. PLACE: list-of-datasets branch with a condition descriptor: from_partials places every input through its position map
+    partial_placement(ctx, obs)
+
+
+def partial_placement(ctx, obs, rule='PLACE'):
+    """rdm.combine.from_partials lines the RDMs of datasets with different / differently ordered conditions up on the common
+    pattern list: the positions come from `all_patterns.index(label)`.  Every value written into the merged vectors has to pass
+    through that position map - a store that does not (data flow only, with the map held fixed) puts the dissimilarities of an
+    input under whatever labels happen to be at its own positions."""
+    prog = ctx.prog
+    q = 'rdm.combine.from_partials'
+    f = prog.func(q)
+    pos = None
+    for st in ast.walk(f.node):
+        if isinstance(st, ast.Assign) and len(st.targets) == 1 and isinstance(st.targets[0], ast.Name) \
+                and any(isinstance(c, ast.Call) and isinstance(c.func, ast.Attribute) and c.func.attr == 'index' for c in ast.walk(st.value)):
+            pos = st.targets[0].id
+    ctor = [c for c in ast.walk(f.node) if isinstance(c, ast.Call) and norm(c.func).split('.')[-1] == 'RDMs']
+    buf = None
+    for c in ctor:
+        v = next((k.value for k in c.keywords if k.arg == 'dissimilarities'), c.args[0] if c.args else None)
+        if isinstance(v, ast.Name):
+            buf = v.id
+    con = 'every input RDM is written into the merged vectors through its position map (label -> position in the common list)'
+    if pos is None or buf is None:
+        obs.unk(rule, q, con, f'position map / result buffer not recognised (map: {pos}, buffer: {buf})', where(prog, f, f.node))
+        return
+    r2 = ctx.dep.analyze(q, data_only=True, cut={pos})
+    stores = [(node, v) for node, root, v, _ in r2.stores if root == buf]
+    if not stores:
+        obs.unk(rule, q, con, f'no store into `{buf}` found', where(prog, f, f.node))
+        return
+    for node, v in stores:
+        tgt = node.targets[0] if isinstance(node, ast.Assign) else getattr(node, 'target', node)
+        if ('CUT:' + pos) in v:
+            obs.ok(rule, q, con, f'`{norm(node)[:70]}` derives from `{pos}`', where(prog, f, node))
+        elif isinstance(node, ast.Assign) and isinstance(node.value, ast.Constant):
+            obs.ok(rule, q, con, f'`{norm(node)[:70]}` stores a constant', where(prog, f, node))
+        else:
+            obs.bad(rule, q, con, f'`{norm(node)[:90]}` writes dissimilarities into `{buf}` that do not pass through the position map `{pos}`: '
+                    f'an input that lists its patterns in another order than the common list ends up under the wrong labels',
+                    where(prog, f, node))
 
 
 def kernel_axes(ctx, obs, rule='AXIS'):
